@@ -1442,28 +1442,37 @@ class Simulation:
 
         """
 
+        if self.layered:
+            msg = "`jtvec` is not implemented for `layered`."
+            raise NotImplementedError(msg)
+
+        # Ensure residual and weights are the ones of this simulation.
+        _ = self.misfit
+
         # Replace residual by provided vector
         # (division by weight is undone in gradient).
         residual = self.data.residual.data.copy()
         with np.errstate(invalid='ignore'):  # (For division by cplx-NaN.)
             self.data.residual[...] = vector/self.data.weights.data
 
-        # Reset gradient, so it will be computed.
-        self._gradient = None
-        for name in ['_dict_bfield', '_dict_bfield_info']:
-            if hasattr(self, name):
-                delattr(self, name)
+        try:
+            # Reset gradient, so it will be computed.
+            self._gradient = None
+            for name in ['_dict_bfield', '_dict_bfield_info']:
+                if hasattr(self, name):
+                    delattr(self, name)
 
-        # Get gradient from weighted residual `vector`.
-        jtvec = self.gradient
+            # Get gradient from weighted residual `vector`.
+            jtvec = self.gradient
 
-        # Restore the residual and reset the gradient, so that these always
-        # correspond to the misfit.
-        self.data.residual[...] = residual
-        self._gradient = None
-        for name in ['_dict_bfield', '_dict_bfield_info']:
-            if hasattr(self, name):
-                delattr(self, name)
+        finally:
+            # Restore the residual and reset the gradient, so that these
+            # always correspond to the misfit.
+            self.data.residual[...] = residual
+            self._gradient = None
+            for name in ['_dict_bfield', '_dict_bfield_info']:
+                if hasattr(self, name):
+                    delattr(self, name)
 
         return jtvec
 
